@@ -6,4 +6,9 @@ META = {
   text="Soundness, completeness and permutation-invariance of FindConflicts are Lean theorems over every finite route list (no bound on length, depth, alphabet); the model is tied to the Go code by exact output equality on tens of thousands of generated lists per run, and the Lean-proved decidable spec is evaluated on the implementation's own answers.",
   note="Trusted: Lean kernel, propext/Classical.choice/Quot.sound, the hand-written model's faithfulness as sampled by the correspondence run, the harness. Holds on the tree after the fix: commit 710dc94 (identity-keyed de-duplication).",
  ),
+ "C17": dict(
+  technique="Lean 4 proof (index-consistency invariant by induction over operation histories, query refinement) + history-based differential correspondence with symboldg.SymbolGraph",
+  text="The consistency of edges/deps/revDeps is a Lean invariant proved for every reachable state (any history of AddNode/AddStruct/AddEnum/AddPrimitive/AddEdge/RemoveEdge/RemoveNode, cyclic graphs and the eviction cascade included); GetEdges/Children/Parents are proved equal to the plain edge-set answers under it, so outgoing<=>incoming and child<=>parent duality are theorems. The model is tied to the Go graph by dumping every query after every operation of thousands of generated histories; the plain set-of-nodes/edges specification (incl. the eviction fixed point) is evaluated on the implementation's own dumps.",
+  note="Trusted: Lean kernel, standard axioms, hand-written model as sampled by the correspondence, harness. Not proved in Lean: cascade = least fixed point (spec-checked on every run). Holds after fix commits 095d206, fa8c7b3, 824927d.",
+ ),
 }
